@@ -20,7 +20,7 @@ TOK = {
     "esc_percent": ["%25"],
     "double": ["%2541", "%2520", "%252F", "%2525", "%25zz"],
     "malformed": ["%", "%4", "%zz", "%%41", "%4G", "%%", "%g1", "%٣٤", "%4１", "%4%31", "%2%46", "%%34%31", "%c%33"],
-    "nonutf8": ["%E9", "%C3", "%FF", "%C3%28", "%e9", "%80", "%ED%A0%80", "%C0%AF"],
+    "nonutf8": ["%E9", "%C3", "%FF", "%C3%28", "%e9", "%80", "%ED%A0%80", "%C0%AF", "%E2%82", "%F0%9F%98", "%e2%82%28"],
     "control": ["%00", "%0A", "%1F", "%7F", "%C2%80", "%C2%9F", "%09", "%0d", "%c2%85"],
     "plus": ["+"],
     "subdelim": ["!", "$", "'", "(", ")", "*", ",", ";"],
